@@ -4,6 +4,7 @@
 # usage: confirm_mutant.sh <worktree> <patch.diff> <demo.py>
 wt=$1; patch=$2; demo=$3
 git -C "$wt" checkout -q -- xmlschema 2>/dev/null
+git -C "$wt" checkout -q --detach "$(git -C /repo rev-parse HEAD)"   # follow fix: commits in /repo
 cd "$wt" || exit 2
 echo "--- demo on the clean tree"; PYTHONPATH=$wt /venv/bin/python "$demo" 2>&1 | tail -4; echo "rc=$?"
 git -C "$wt" apply "$patch" || { echo "patch does not apply"; exit 2; }
